@@ -213,20 +213,27 @@ Print Assumptions C02_multi_mode_dot_distinct_modes_backends_agree_partial.
 
 (* np.einsum's broadcasting (einsum_np: label size = largest axis size, a size-1 axis is broadcast, anything else raises): when all
    axes of every label agree (einsum_sizes_ok) nothing is broadcast and the call is the plain einsum of the theorems - FULL.
-   A size-1 MISMATCH is a malformed request: core multi_mode_dot and mode_dot of both backends reject it, einsum multi_mode_dot AS
-   IT IS returns a tensor - witness C02_multi_mode_dot_einsum_size1_broadcast_refuted (known finding
-   einsum_multi_mode_dot_size1_broadcast, same fix candidate); for operands that fit (C02_multi_mode_dot_backends_agree) the backends agree. *)
+   Since /repo 8b25fc6 the einsum multi_mode_dot checks the contracted dimension of every non-skipped operand against the size of
+   its mode (fit_one) and rejects a misfit - also a size-1 one - as the core backend does (C02_multi_mode_dot_einsum_rejects_misfit);
+   the behaviour before (np.einsum broadcast the size-1 axis) is the labelled regression Example. *)
 Theorem C02_einsum_np_no_broadcast : forall (F : Type) (Op : rops F) (ins : list (list nat)) (out : list nat) (ts : list (tensor F)),
   length ins = length ts -> einsum_sizes_ok ins ts = true -> einsum_np Op ins out ts = Ok (einsum Op ins out ts).
 Proof. exact @einsum_np_sizes_ok. Qed.
 Print Assumptions C02_einsum_np_no_broadcast.
 
-Theorem C02_multi_mode_dot_einsum_size1_broadcast_refuted :
-  exists (T M R : tensor Z), shape T = [2; 2] /\ shape M = [2; 1] /\
-    multi_mode_dot ZR T [M] (Some [1]) None false = Err /\ mode_dot_e ZR T M 1 false = Err /\
-    multi_mode_dot_e ZR T [M] (Some [1]) None false = Ok R.
-Proof. exact multi_mode_dot_einsum_size1_broadcast_refuted. Qed.
-Print Assumptions C02_multi_mode_dot_einsum_size1_broadcast_refuted.
+Theorem C02_multi_mode_dot_einsum_rejects_misfit : forall (F : Type) (Op : rops F) (T : tensor F) (Ms : list (tensor F))
+  (modes : option (list nat)) (skip : option nat) (tr : bool),
+  (exists x, In x (sort_by_mode (zip3 Ms modes)) /\ is_skip skip (snd x) = false /\ fit_one (shape T) tr (fst (fst x)) (t_mode x) = false) ->
+  multi_mode_dot_e Op T Ms modes skip tr = Err.
+Proof. exact @multi_mode_dot_e_rejects_misfit. Qed.
+Print Assumptions C02_multi_mode_dot_einsum_rejects_misfit.
+
+Example C02_multi_mode_dot_einsum_size1_before_8b25fc6 :
+  let T : tensor Z := mk [2; 2] [1; 2; 3; 4]%Z in let M : tensor Z := mk [2; 1] [1; 2]%Z in
+  multi_mode_dot ZR T [M] (Some [1]) None false = Err /\ mode_dot_e ZR T M 1 false = Err /\
+  multi_mode_dot_e_before_8b25fc6 ZR T [M] (Some [1]) None false = Ok (mk [2; 2] [3; 6; 7; 14]%Z) /\
+  multi_mode_dot_e ZR T [M] (Some [1]) None false = Err.
+Proof. exact multi_mode_dot_einsum_size1_before_8b25fc6. Qed.
 
 (* rejection of wrongly sized weights / masks: bad_size w n = w has neither n entries nor a single one *)
 Theorem C02_khatri_rao_rejects_weights : forall (F : Type) (Op : rops F) (Ms : list (tensor F)) (w : tensor F) (mask : option (tensor F)) (skip : option nat) (R : nat),
